@@ -1131,6 +1131,33 @@ class _Linalg(object):
     def solve(a, b):
         return dot(_Linalg.inv(a), b)
 
+    @staticmethod
+    def lstsq(a, b, rcond=None):
+        """numpy.linalg.lstsq on symbolic data.
+        square invertible a (n <= 3): the unique solution inv(a).b (definition; det != 0 is a side obligation of the division);
+        zero right-hand side: zero; otherwise an ASSUMED contract (DESIGN 3.4): a fresh X satisfying the normal equations a^T a X = a^T b."""
+        a, b = asarray(a), asarray(b)
+        if not (_has_sym(a) or _has_sym(b)):
+            r = _np.linalg.lstsq(_base(a), _base(b), rcond=rcond)
+            return (_wrap(r[0]),) + tuple(r[1:])
+        if a.ndim != 2:
+            raise LeftFragment('lstsq of a non-matrix')
+        zero_rhs = _bi.all((isinstance(x, Sym) and x.is_concrete() and x.value() == 0) or (not isinstance(x, Sym) and x == 0) for x in _np.asarray(b, dtype=object).ravel())
+        if zero_rhs:
+            return (zeros((a.shape[1],) + b.shape[1:]), None, None, None)
+        if a.shape[0] == a.shape[1] and a.shape[0] <= 3:
+            return (dot(_Linalg.inv(a), b), None, None, None)
+        eng = get_engine()
+        if eng is None:
+            raise LeftFragment('lstsq on symbolic data outside an engine run')
+        eng.note('assumed contract used: numpy.linalg.lstsq (normal equations a^T a X = a^T b)')
+        X = eng.reals('lstsq%d' % (len(eng.notes)), (a.shape[1],) + b.shape[1:])
+        lhs = dot(dot(a.T, a), X)
+        rhs = dot(a.T, b)
+        for l_, r_ in zip(_np.asarray(lhs, dtype=object).ravel(), _np.asarray(rhs, dtype=object).ravel()):
+            eng.assume(_S(l_) == _S(r_))
+        return (X, None, None, None)
+
 
 linalg = _Linalg()
 
